@@ -19,8 +19,6 @@ An operand denotation is one of
 An outcome is ('ok', value) | ('raise', ExceptionClassName) | ('stop',).
 """
 
-import math
-
 SEQ = (list, tuple)
 
 
